@@ -816,6 +816,14 @@ func walkMacroBodyForQuasiquote(node *lisp.LVal, scope *analysis.Scope, protecte
 		}
 		return
 	}
+	// A form of the macro body that opens a scope of its own (let, lambda,
+	// flet, dotimes, ...): templates below it see its bindings.
+	for _, child := range scope.Children {
+		if child.Node == node {
+			scope = child
+			break
+		}
+	}
 	for _, child := range node.Cells {
 		walkMacroBodyForQuasiquote(child, scope, protected)
 	}
@@ -853,8 +861,14 @@ func preserveMacroTemplateSymbol(scope *analysis.Scope, name string) *analysis.S
 		strings.HasPrefix(name, "%") {
 		return nil
 	}
+	// A global the template mentions is what the expansion will refer to.
+	// A local visible where the template is written (a macro parameter, a
+	// local of the macro body) is never what the template's mention means --
+	// there the name is data or part of the expansion -- but the analyzer
+	// records the mention as a reference to it, so renaming the local would
+	// rewrite the template too.  Either way the binding keeps its name.
 	sym := scope.Lookup(name)
-	if sym != nil && sym.Scope != nil && sym.Scope.Kind == analysis.ScopeGlobal {
+	if sym != nil && sym.Scope != nil {
 		return sym
 	}
 	return nil
